@@ -169,9 +169,17 @@ func runC14(t *T) {
 	c := t.C
 	defer beginTrial(t, true)()
 	kind := c.Draw(3)
-	faultKind := []string{"", "Set", "Get", "Data", "ReadDirNames", "Transaction"}[c.Weighted(2, 4, 3, 3, 2, 1)]
+	faultKind := []string{"", "Set", "Get", "Data", "ReadDirNames", "Transaction", "Commit"}[c.Weighted(2, 4, 3, 3, 2, 1, 2)]
+	if faultKind == "Commit" && kind != 2 {
+		faultKind = "Set" // only the transaction store has a commit to refuse
+	}
 	plan := &faultPlan{t: t, kind: faultKind}
-	plan.at = c.Draw(map[string]int{"": 30, "Set": 6, "Get": 20, "Data": 3, "ReadDirNames": 3, "Transaction": 20}[faultKind])
+	if faultKind == "Get" && c.Chance(1, 4) {
+		// the store answers "does not exist" for a record it holds (a transient NoSuchKey): nothing the library
+		// makes of that one answer is held against it, but it must not outlive the call
+		plan.getErr = hackpadfs.ErrNotExist
+	}
+	plan.at = c.Draw(map[string]int{"": 30, "Set": 6, "Get": 20, "Data": 3, "ReadDirNames": 3, "Transaction": 20, "Commit": 20}[faultKind])
 	ambig := c.Chance(1, 4)
 	names := []string{"a", "b", "a/c", "d"}
 	n := 2 + c.Draw(10)
@@ -216,6 +224,8 @@ func runC14(t *T) {
 				sim.ambig = ambig
 			}
 			faulted := false
+			// the open read-write handle of the faulted side: its path and whether nothing has touched that path since
+			openPath, openRDWR, undisturbed := "", false, false
 			for i, o := range ops {
 				firedBefore := plan.fired
 				var res string
@@ -239,7 +249,34 @@ func runC14(t *T) {
 					want = execCOp(twin.fs, ht, o)
 				}
 				t.Logf("%d %s -> %s (twin %s)", i, o, res, want)
-				if plan.fired > firedBefore {
+				switch {
+				case o.H == "HOpen":
+					openPath, openRDWR, undisturbed = "", false, false
+					if !resultFailed(o, res) {
+						openPath, openRDWR, undisturbed = o.P, o.Flag&3 == hackpadfs.FlagReadWrite && o.Flag&hackpadfs.FlagAppend == 0, true
+					}
+				case o.H == "HClose":
+					openPath = ""
+				case o.H == "" && o.Mutating() && openPath != "" && (related(o.P, openPath) || (o.Kind == "Rename" && related(o.Q, openPath))):
+					undisturbed = false
+				}
+				if faulted && plan.fired == firedBefore && openPath != "" && openRDWR && undisturbed && (o.H == "HWrite" || o.H == "HTruncate") && !resultFailed(o, res) && hs.h != nil {
+					// a later, fault-free modification through the handle that reported success: the file read by name
+					// now holds what the handle holds (one bad answer from the store must not have become handle state)
+					hb := make([]byte, 4096)
+					hn, _ := hackpadfs.ReadAtFile(hs.h, hb, 0)
+					pb, perr := hackpadfs.ReadFile(st.fs, openPath)
+					if perr == nil && !bytes.Equal(hb[:hn], pb) {
+						t.Fail("handle-write-not-stored", "C14:"+opName(o)+":ok-but-not-stored-after-earlier-fault", fmt.Sprintf("step %d %s on %s returned %q after the earlier store fault (%s), but %q read by name holds %q while the handle holds %q", i, o, st.name, res, plan.firedAt, openPath, clip(pb), clip(hb[:hn])))
+					}
+					t.Stat("c14:handle-vs-name-compared-after-fault")
+				}
+				if plan.fired > firedBefore && plan.getErr != nil {
+					// the lie "does not exist": any outcome of this one call is accepted (no panic was checked above)
+					faulted = true
+					plan.armed = false
+					t.Stat("probe:fault-inside-operation")
+				} else if plan.fired > firedBefore {
 					faulted = true
 					plan.armed = false
 					fk := strings.Fields(plan.firedAt)[0]
@@ -250,6 +287,10 @@ func runC14(t *T) {
 					t.Stat("probe:fault-inside-operation")
 					failed := resultFailed(o, res)
 					switch fk {
+					case "Commit":
+						if !failed {
+							t.Fail("silent-commit-failure", sig+":returned-ok", fmt.Sprintf("step %d %s on %s: the store refused the transaction at Commit (results present, error set), the operation returned %q (no error)", i, o, st.name, res))
+						}
 					case "Set":
 						if !failed {
 							t.Fail("silent-write-failure", sig+":returned-ok", fmt.Sprintf("step %d %s on %s: the store rejected %s, the operation returned %q (no error)", i, o, st.name, plan.firedAt, res))
@@ -374,7 +415,32 @@ func c14Probe(kind int, faultKind string, at int, ops ...cOp) func(t *T) {
 	}
 }
 
+// c14TruncateRetryProbe: a handle Truncate refused by the store, then the same Truncate again without a fault.
+func c14TruncateRetryProbe(t *T) {
+	defer beginTrial(t, false)()
+	inBubble(t, 5000, func(s *Sched) {
+		s.Go("client", func() {
+			plan := &faultPlan{t: t, at: 0, kind: "Set"}
+			st := c14Build(t, 1, plan) // the copying store: what was not Set is not there
+			hs := &taskState{}
+			execCOp(st.fs, hs, cOp{Op: Op{Kind: "WriteFullFile", P: "b", Perm: 0644, Data: []byte("bbbbbb")}})
+			execCOp(st.fs, hs, cOp{H: "HOpen", Op: Op{P: "b", Flag: hackpadfs.FlagReadWrite}})
+			plan.armed, plan.calls = true, 0
+			r1 := execCOp(st.fs, hs, cOp{H: "HTruncate", N: 3})
+			plan.armed = false
+			r2 := execCOp(st.fs, hs, cOp{H: "HTruncate", N: 3})
+			pb, _ := hackpadfs.ReadFile(st.fs, "b")
+			t.Logf("Truncate(3) with the Set refused -> %s; again -> %s; b read by name: %q", r1, r2, pb)
+			if !resultFailed(cOp{H: "HTruncate"}, r2) && string(pb) != "bbb" {
+				t.Fail("handle-write-not-stored", "C14:HTruncate:ok-but-not-stored-after-earlier-fault", fmt.Sprintf("the second Truncate(3) returned %q, b read by name holds %q", r2, pb))
+			}
+		})
+		s.Run()
+	})
+}
+
 func init() {
+	RegisterProbe("c14-truncate-retry-after-refused-set", c14TruncateRetryProbe)
 	RegisterProbe("c14-mkdir-set-rejected", c14Probe(0, "Set", 0, cOp{Op: Op{Kind: "Mkdir", P: "a", Perm: 0755}}))
 	RegisterProbe("c14-rename-set-rejected", c14Probe(2, "Set", 0, cOp{Op: opWrite("b")}, cOp{Op: opRename("b", "d")}))
 	RegisterProbe("c14-mkdirall-no-transaction", c14Probe(2, "Transaction", 0, cOp{Op: Op{Kind: "MkdirAll", P: "a/c", Perm: 0755}}))
